@@ -174,5 +174,30 @@ Definition tree_case_ok (c : tree_case) : bool :=
      | Raise _ => false
      end.
 
+(** constructor: blocks given by their dtype tags; observed = accepted? *)
+Definition ctor_case := (list Z * bool)%type.
+Definition ctor_case_ok (c : ctor_case) : bool :=
+  let '(dts, accepted) := c in
+  let bs := map (fun d => IsArr Z Z (mkarr Z [] d [0])) dts in
+  match BlockArray Z Z no_array bs with
+  | Ok b => accepted && list_eqb Z.eqb (map (a_dtype Z) b) dts
+  | Raise e => negb accepted && Z.eqb (exc_code e) 2
+  end.
+
+(** lifted attribute read eagerly or while traced: (traced?, array valued?, block tags,
+    observed container (1 = BlockArray, 0 = tuple), observed length) *)
+Definition attr_case := (bool * bool * list Z * (Z * Z))%type.
+Definition attr_case_ok (c : attr_case) : bool :=
+  let '(traced, arrv, l, (kind, len)) := c in
+  let get := fun x : arr Z => if arrv then IsArr Z Z (mkarr Z [] 0 [100 + hd (-1) (a_data Z x)])
+                              else NotArr Z Z (100 + hd (-1) (a_data Z x)) in
+  (* the class test of the code accepts every array, traced or not *)
+  match attr_wrapper_cls Z Z no_array (fun _ => true) get (map tagarr l) with
+  | Ok (inl b) => Z.eqb kind 1 && Z.eqb len (Z.of_nat (length b))
+                  && list_eqb Z.eqb (map (fun a => hd (-1) (a_data Z a)) b) (map (fun t => 100 + t) l)
+  | Ok (inr t) => Z.eqb kind 0 && Z.eqb len (Z.of_nat (length t))
+  | Raise _ => false
+  end.
+
 Fixpoint bad_idx {X} (f : X -> bool) (l : list X) (i : nat) : list nat :=
   match l with [] => [] | x :: r => if f x then bad_idx f r (S i) else i :: bad_idx f r (S i) end.
